@@ -102,6 +102,8 @@ class _Finally:
 
 
 class CFG:
+    stats = {"cfgs": 0, "nodes": 0, "edges": 0, "functions": set()}
+
     def __init__(self, func_node: ast.FunctionDef, may_raise: Callable[[Node], bool] | None = None,
                  name: str = ""):
         self.func = func_node
@@ -115,6 +117,10 @@ class CFG:
         self._ck = "normal"
         d = self._seq(func_node.body, [(self.entry, "n")], ())
         self._connect(d, self.exit)
+        CFG.stats["cfgs"] += 1
+        CFG.stats["nodes"] += len(self.nodes)
+        CFG.stats["edges"] += sum(len(n.succ) for n in self.nodes)
+        CFG.stats["functions"].add(self.name)
 
     # ----------------------------------------------------------------- building
     def _new(self, kind, ast_node=None, expr=None) -> Node:
